@@ -21,17 +21,73 @@ from .. import sx
 
 _counter = itertools.count()
 PRIMS = {"int": int, "str": str, "list": list, "dict": dict, "float": float, "bool": bool}
-RAW_BASES = ("raw", "reg", "tyme", "iceraw", "icereg", "icetyme")
+RAW_BASES = ("raw", "reg", "tyme", "iceraw", "icereg", "icetyme", "bag", "icebag")
 ALL_BASES = RAW_BASES + ("map", "icemap")
 FNAMES = ["a", "b", "c", "x", "y", "k_1", "é", "_seq", "_", "__d", "x_", "class_", "_é", "_0", "ñ2", "__len"]
 KEYS = FNAMES + ["", "q", "zz", "ключ"]
 
 
 def unwrap(base):
-    """(base without the validation wrapper, (field, lo, hi, exc) | None)"""
-    if isinstance(base, (tuple, list)) and base[0] == "chk":
-        return base[1], tuple(base[2:6])
-    return base, None
+    """(base without the validation / decorator wrappers, (field, lo, hi, exc) | None)"""
+    chk = None
+    while isinstance(base, (tuple, list)) and base[0] in ("chk", "dec", "hook"):
+        if base[0] == "chk":
+            chk = tuple(base[2:6])
+        base = base[1]
+    return base, chk
+
+
+def hook_of(schema, j):
+    """the _dictify / _datify hook pair class j has: its own ("hook", base, "rename" | "wrap") or the nearest inherited one"""
+    base = schema[j][0]
+    while isinstance(base, (tuple, list)) and base[0] in ("chk", "dec", "hook"):
+        if base[0] == "hook":
+            return base[2]
+        base = base[1]
+    if isinstance(base, (tuple, list)) and base[0] == "sub":
+        return hook_of(schema, base[1])
+    return None
+
+
+def _hooks(kind):
+    """the two methods of a hook pair; exact inverses of each other"""
+    def _one(v):
+        if not (isinstance(v, list) and len(v) == 1):
+            raise ValueError("not a wrapped value")
+        return v[0]
+
+    def _unprefix(k):
+        if not k.startswith("h_"):
+            raise KeyError(k)
+        return k[2:]
+    if kind == "rename":
+        def _dictify(self):
+            return {"h_" + k: v for k, v in dataclasses.asdict(self).items()}
+
+        def _datify(cls, d):
+            return cls(**{_unprefix(k): v for k, v in d.items()})
+    else:
+        def _dictify(self):
+            return {k: [v] for k, v in dataclasses.asdict(self).items()}
+
+        def _datify(cls, d):
+            return cls(**{k: _one(v) for k, v in d.items()})
+    return dict(_dictify=_dictify, _datify=classmethod(_datify))
+
+
+def dec_of(base):
+    """explicit decorator set of a class ("n" = @namify, "r" = @registerify), or None = what the library itself does for
+    that family (reg: r, tyme / bag: nr, the others: none)"""
+    while isinstance(base, (tuple, list)) and base[0] in ("chk", "dec", "hook"):
+        if base[0] == "dec":
+            return base[2]
+        base = base[1]
+    return None
+
+
+TYME_ROOTS = ("tyme", "icetyme", "bag", "icebag")
+REG_ROOTS = ("reg", "icereg") + TYME_ROOTS
+ROOT_FIELDS = {"bag": [("value", ("any",), ("d", ("null",)))], "icebag": [("value", ("any",), ("d", ("null",)))]}
 
 
 def check_of(schema, j):
@@ -63,7 +119,14 @@ def fields_of(schema, j):
                 inh.append(fld)
                 names.append(fld[0])
         return inh
-    return list(own)
+    inh = list(ROOT_FIELDS.get(base, []))          # Bag / IceBag bring a field of their own
+    names = [f for f, _, _ in inh]
+    for fld in own:
+        if fld[0] in names:
+            inh[names.index(fld[0])] = fld
+        else:
+            inh.append(fld)
+    return inh
 
 
 def base_of(schema, j):
@@ -77,8 +140,10 @@ def base_of(schema, j):
 def build_classes(schema):
     """create fresh dataclass subclasses of the real Dom bases for this schema"""
     from hio.help import doming
+    from hio.base.hier import bagging
     bases = dict(raw=doming.RawDom, reg=doming.RegDom, tyme=doming.TymeDom, iceraw=doming.IceRawDom,
-                 icereg=doming.IceRegDom, icetyme=doming.IceTymeDom, map=doming.MapDom, icemap=doming.IceMapDom)
+                 icereg=doming.IceRegDom, icetyme=doming.IceTymeDom, map=doming.MapDom, icemap=doming.IceMapDom,
+                 bag=bagging.Bag, icebag=bagging.IceBag)
     classes = []
     for k, (base, flds) in enumerate(schema):
         name = f"C28Dom{next(_counter)}"
@@ -86,15 +151,26 @@ def build_classes(schema):
         for fname, ann, dflt in flds:
             specs.append((fname, _pyann(ann, classes), _pyfield(dflt, classes)))
         root = base_of(schema, k)
+        dec = dec_of(base)
+        own_hook = None
+        b_ = base
+        while isinstance(b_, (tuple, list)) and b_[0] in ("chk", "dec", "hook"):
+            if b_[0] == "hook":
+                own_hook = b_[2]
+            b_ = b_[1]
         base, chk = unwrap(base)
         parent = classes[base[1]] if isinstance(base, (tuple, list)) else bases[base]
         ns = {}
-        if chk is not None and root not in ("tyme", "icetyme"):      # the tyme bases have a __post_init__ of their own
+        if chk is not None and root not in TYME_ROOTS:      # the tyme bases have a __post_init__ of their own
             ns["__post_init__"] = _validator(*chk)
+        if own_hook is not None:
+            ns.update(_hooks(own_hook))
         cls = dataclasses.make_dataclass(name, specs, bases=(parent,), frozen=root.startswith("ice"), namespace=ns)
-        if root in ("reg", "tyme", "icereg", "icetyme"):
+        if dec is None:
+            dec = "nr" if root in TYME_ROOTS else "r" if root in REG_ROOTS else ""
+        if "r" in dec and root in REG_ROOTS:
             cls = doming.registerify(cls)
-        if root in ("tyme", "icetyme"):
+        if "n" in dec:
             cls = doming.namify(cls)
         classes.append(cls)
     return classes
@@ -237,8 +313,10 @@ def wire_schema(schema):
             else:
                 w = (a, ann[1])
             fs.append(("fld", fname.encode("utf-8"), w, None if dflt is None else wire_tree(dflt[1])))
+        if hook_of(schema, k) is not None:
+            fs.append(("hook", hook_of(schema, k)))
         chk = check_of(schema, k)
-        if chk is not None and base_of(schema, k) not in ("tyme", "icetyme"):
+        if chk is not None and base_of(schema, k) not in TYME_ROOTS:
             fs.append(("chk", chk[0].encode("utf-8"), chk[1], chk[2]))
         out.append(("cls",) + tuple(fs))
     return tuple(out)
@@ -302,6 +380,15 @@ def upgraded_plain(schema, t, ann=("any",)):
     if class_ann(ann) and not has_obj(t):
         return any(upgradable(schema, j, t) for j in members(ann))
     return False
+
+
+def nested_hooked(schema, t, top=True):
+    """K5 trigger: an object of a class with a _dictify/_datify hook pair sits INSIDE another object"""
+    if t[0] != "obj":
+        return False
+    if not top and hook_of(schema, t[1]) is not None:
+        return True
+    return any(nested_hooked(schema, x, False) for x in t[2])
 
 
 def ambiguous_union(schema, t, ann=("dom", None)):
@@ -375,7 +462,7 @@ def gen_schema(rng, dirty):
         if k == n - 1 and rng.random() < 0.9 and base in ("map", "icemap"):
             base = "raw"
         names = rng.sample(FNAMES, rng.choice([0, 1, 2, 2, 3, 3, 4]))
-        sub = k >= 1 and rng.random() < 0.35
+        sub = k >= 1 and rng.random() < 0.45
         if sub:
             # subclass of an earlier generated class (chains of depth >= 2 arise): inherits its fields, may redeclare one
             base = ("sub", rng.randrange(k))
@@ -397,7 +484,7 @@ def gen_schema(rng, dirty):
                         ann = (kind, rng.sample(range(k), rng.choice([2, 2, 3]) if k >= 3 else 2))
                     else:
                         ann = (kind, j)
-            if sub or base in ("tyme", "icetyme") or rng.random() < 0.5:
+            if sub or base in TYME_ROOTS or rng.random() < 0.5:
                 d = rng.random()
                 if d < 0.5:
                     dflt = ("d", ("null",))
@@ -413,6 +500,18 @@ def gen_schema(rng, dirty):
                     dflt = None          # a redeclared required field stays required (it keeps its inherited position)
             flds.append((fname, ann, dflt))
         flds.sort(key=lambda f: f[2] is not None)      # required fields first (dataclass rule)
+        if hook_of(schema + [(base, flds)], k) is not None:
+            # the (inherited) hook pair of this harness converts plain values only: keep the fields of a hooked class plain
+            flds = [(f, a if a[0] in ("any", "prim") else ("any",), d) for f, a, d in flds]
+        if rng.random() < 0.45:
+            # every decorator combination the family allows: @namify and/or @registerify or neither (a child then INHERITS
+            # whatever class attributes its parent's decorators wrote)
+            root = base_of(schema + [(base, flds)], k)
+            base = ("dec", base, rng.choice(["", "n", "r", "nr", "r", ""] if root in REG_ROOTS else ["", "n", "n"]))
+        if rng.random() < 0.15 and all(a[0] in ("any", "prim") for _, a, _ in fields_of(schema + [(base, flds)], k)) \
+                and hook_of(schema + [(base, flds)], k) is None:
+            # a _dictify / _datify hook pair (key-renaming or value-transforming, exact inverses), on any family, frozen or not
+            base = ("hook", base, rng.choice(["rename", "wrap"]))
         if rng.random() < 0.2:
             eff = [f for f, _, _ in fields_of(schema + [(base, flds)], k)]
             if eff:
@@ -454,7 +553,7 @@ def gen_value(rng, schema, ann, depth, dirty):
 def gen_obj(rng, schema, j, depth, dirty):
     vals = [gen_value(rng, schema, ann, depth, dirty) for _, ann, _ in fields_of(schema, j)]
     chk = check_of(schema, j)
-    if chk is not None and base_of(schema, j) not in ("tyme", "icetyme"):
+    if chk is not None and base_of(schema, j) not in TYME_ROOTS:
         for i, (fname, _, _) in enumerate(fields_of(schema, j)):
             if fname == chk[0] and vals[i][0] == "int" and not chk[1] <= vals[i][1] <= chk[2]:
                 vals[i] = ("int", rng.choice([chk[1], chk[2], rng.randint(chk[1], chk[2])]))      # an instance satisfies its own validator
